@@ -96,7 +96,7 @@ def Sat (S : Schema) (D : Frame) : Prop :=
   (∀ spec ∈ S.columns, columnSat spec D)
   ∧ (S.strict = .yes → ∀ n ∈ D.names, (declared S D).contains n = true)
   ∧ (S.ordered = true → inOrder S D)
-  ∧ (S.unique ≠ [] →
+  ∧ (S.unique ≠ [] → (S.unique.filter D.hasCol).filterMap D.col? ≠ [] →
       rowsDistinct (rowsOf D.nrows (((S.unique.filter D.hasCol).filterMap D.col?).map (·.vals))))
   ∧ (∀ ix, S.index = some ix → indexSat ix D)
 
